@@ -269,10 +269,10 @@ pub fn generate_project(seed: u64, index: u64) -> Project {
     }
     // only read by the client-side dynamic-loading configuration of the code generator
     let tp: &str = if namespaces.is_some() {
-        *rng.pick(&["i18n/{namespace}/{locale}.json", "{namespace}/{locale}.json", "données/{namespace}/{locale}.json", "api/{locale}/{namespace}.json", "{locale}-{namespace}"])
+        *rng.pick(&["i18n/{namespace}/{locale}.json", "{namespace}/{locale}.json", "données/{namespace}/{locale}.json", "api/{locale}/{namespace}.json", "{locale}-{namespace}", "i18n/{locale}-v2}/{namespace}.json", "{{namespace}}/{locale}", "i18n/{namespace/{locale}.json"])
     } else {
         // `{namespace}` is legal without namespaces: it is replaced by nothing
-        *rng.pick(&["i18n/{locale}.json", "{namespace}/{locale}.json", "donné{namespace}/{locale}.json", "{locale}.json", "i18n/{namespace}{locale}.json", "{locale}{namespace}"])
+        *rng.pick(&["i18n/{locale}.json", "{namespace}/{locale}.json", "donné{namespace}/{locale}.json", "{locale}.json", "i18n/{namespace}{locale}.json", "{locale}{namespace}", "i18n}/{locale}.json", "}{locale}{", "i18n/{locale"])
     };
     cfg.push_str(&format!("translations-path = \"{tp}\"\n"));
     if let Some((a, b)) = &inherits {
@@ -337,6 +337,10 @@ fn adversarial_values(target_key: &str) -> Vec<Value> {
         json!(["i64", ["x", "..=-9223372036854775808"], ["y"]]), json!([["x", "1..=2", "3|4", "|"], ["y"]]), json!([["x", ""], ["y"]]), json!([[1, 2]]), json!([["x", [1, [2]]], ["y"]]), json!([{"value": "x"}]),
         json!([["$t(a)", 1], ["{{ count }} $t(a)"]]), json!(["u8", ["x", "0..=255"]]), json!(["i8", ["x", "..0"], ["y", "0.."]]),
         json!("@@RAW:1e400@@"), json!("@@RAW:-1e400@@"), json!("@@RAW:99999999999999999999999999@@"), json!("@@RAW:Infinity@@"), json!("@@RAW:.nan@@"), json!("@@RAW:0x10@@"), json!(-0.0), json!(18446744073709551615u64), json!(-9223372036854775808i64), json!(null), json!(true), json!({}), json!({"": "x"}), json!({"a b": "x"}), json!({"1abc": "x"}),
+        // long first items of a sequence that are not a range type (the error quotes user text: no cut inside a character)
+        json!(["Une boutique de quartier pas chère du tout, vraiment pas chère", ["x", 1]]), json!(["ééééééééééééééééééééééééééééééééééééééééé", "b"]), json!(["aééééééééééééééééééééééééééééééééééééééééé", "b"]),
+        json!(["日本語日本語日本語日本語日本語日本語日本語日本語日本語日本語", ["x"]]), json!(["ab日本語日本語日本語日本語日本語日本語日本語日本語日本語日本語", ["x"]]), json!(["😀😀😀😀😀😀😀😀😀😀😀😀😀😀😀😀😀", 1]), json!(["x😀😀😀😀😀😀😀😀😀😀😀😀😀😀😀😀😀", 1]),
+        json!("éééééééééééééééééééééééééééééééééééééééééééééééééééééééééééééééééééééééé {{ a, number(éééééééééééééééééééééééééééééééééééééééé: é) }}"), json!("$t(éééééééééééééééééééééééééééééééééééééééééééééééééé)"),
         json!({"fn": "x"}), json!({"é": "x"}), json!({"self": "x"}), json!({"a-b": "x {{ v }}", "a_b": "y"}), nest(40), nest(200),
     ]
 }
@@ -369,7 +373,7 @@ pub fn generate_adversarial(seed: u64, index: u64) -> Project {
     let mut obj = obj;
     for _ in 0..n {
         let val = rng.pick(&values).clone();
-        match rng.below(4) {
+        match rng.below(5) {
             0 if !keys.is_empty() => {
                 obj.insert(rng.pick(&keys).clone(), val); // replace an existing key's value
             }
@@ -378,6 +382,16 @@ pub fn generate_adversarial(seed: u64, index: u64) -> Project {
                 let k = rng.pick(&keys).clone();
                 let form = rng.pick(&["_one", "_other", "_ordinal_other", "_ordinal_one", "_zero", "_many"]);
                 obj.insert(format!("{k}{form}"), val);
+            }
+            3 => {
+                // plural forms whose base key is a keyword, empty, a number or otherwise not an identifier
+                let base = *rng.pick(&["type", "", "fn", "self", "1st", "a b", "é", "_", "r#type", "count", "type_ordinal"]);
+                obj.insert(format!("{base}_one"), val);
+                obj.insert(format!("{base}_other"), json!("{{ count }} others"));
+                if rng.chance(1, 2) {
+                    obj.insert(format!("{base}_ordinal_one"), json!("{{ count }}st"));
+                    obj.insert(format!("{base}_ordinal_other"), json!("{{ count }}th"));
+                }
             }
             2 => {
                 obj.insert(format!("adv_{}", rng.below(3)), val);
